@@ -91,6 +91,7 @@ ABC[amount>100],AbcBig,CsvBig,,
 '''
 D_CSV = '''Pattern,Merchant,Category,Subcategory,Tags
 NETFLIX[amount>100],NetflixBig,DBig,,d
+ABC[date:last120days],AbcRecent,DRecent,,
 ^\\D+$,LettersCsv,DLetters,,
 '''
 BAD_RULES = '''[Broken
